@@ -117,6 +117,12 @@ def check(run: Run) -> None:
     else:
         _check_shadow_lambda(run, ctx, m, vl, "C05")
 
+    # ---------------- R6: loop variables of comprehensions in a helper body are binders too
+    run.rule("C05.R6", "comprehension loop variables in an inlined helper hide the helper's parameters of the same name (all four forms)")
+    from .c04 import check_comprehension_shadow
+
+    check_comprehension_shadow(run, ctx, m, cls, "C05.R6")
+
     # ---------------- R4
     check_rewrite_func(run, ctx, m, "C05.R4")
 
